@@ -299,8 +299,13 @@ fn run(ctx: &mut Ctx) {
                     continue;
                 }
                 ctx.progress(job);
-                if let Some((sig, detail)) = replace_point(ctx, STACKS[s], len, t) {
-                    ctx.rep.violation(&sig, detail, json!({"prop":"C06","replace":true,"stack":s,"linelen":len,"templ":ti}));
+                // every spelling of the replace option, alone and next to a -s above every budget (a user
+                // limit must not take the place of the system's)
+                for (oi, ropt) in REPLACE_OPTS.iter().enumerate() {
+                    if let Some((sig, detail)) = replace_point(ctx, STACKS[s], len, t, ropt) {
+                        let sig = if oi == 0 { sig } else { format!("{sig} [option written {}]", ropt.join(" ")) };
+                        ctx.rep.violation(&sig, detail, json!({"prop":"C06","replace":true,"stack":s,"linelen":len,"templ":ti,"ropt":oi}));
+                    }
                 }
             }
         }
@@ -329,7 +334,9 @@ fn run(ctx: &mut Ctx) {
 /// -I slice: one line of `len` bytes substituted into templates holding several {}: either every
 /// invocation is accepted by exec and the recorder sees the substituted arguments, or xargs refuses
 /// the line with exit 1 before running anything with it.
-fn replace_point(ctx: &mut Ctx, stack: (&str, u64), len: usize, templ: &[&str]) -> Option<(String, String)> {
+const REPLACE_OPTS: [&[&str]; 9] = [&["-I", "{}"], &["-I{}"], &["-i"], &["-i={}"], &["--replace"], &["--replace={}"], &["-I", "{}", "-s", "400000"], &["-s", "400000", "-I", "{}"], &["--max-chars=400000", "--replace"]];
+
+fn replace_point(ctx: &mut Ctx, stack: (&str, u64), len: usize, templ: &[&str], ropt: &[&str]) -> Option<(String, String)> {
     let sbx = ctx.sbx.clone();
     let vrec = crate::engine::self_bin_dir().join("vrec");
     let log = sbx.join(".mc-vrec.log");
@@ -340,7 +347,9 @@ fn replace_point(ctx: &mut Ctx, stack: (&str, u64), len: usize, templ: &[&str]) 
     data.extend_from_slice(&line);
     data.extend_from_slice(b"\nlast\n");
     std::fs::write(&input, &data).ok()?;
-    let mut args: Vec<OsString> = vec!["-a".into(), input.clone().into(), "-I".into(), "{}".into(), vrec.clone().into(), log.clone().into()];
+    let mut args: Vec<OsString> = vec!["-a".into(), input.clone().into()];
+    args.extend(ropt.iter().map(|t| OsString::from(*t)));
+    args.extend([OsString::from(vrec.clone()), OsString::from(log.clone())]);
     args.extend(templ.iter().map(|t| OsString::from(*t)));
     let aos: Vec<&OsStr> = args.iter().map(|a| a.as_os_str()).collect();
     let o = binrun::run(&binrun::repo_bin("xargs"), &aos, &sbx, &binrun::Opts { env: vec![("VREC_MODE".into(), "count".into())], stack: Some(stack.1), timeout_s: 120, ..Default::default() });
@@ -349,7 +358,7 @@ fn replace_point(ctx: &mut Ctx, stack: (&str, u64), len: usize, templ: &[&str]) 
     let recs = std::fs::read(&log).ok().and_then(|b| vreclog::parse_count(&b).ok()).unwrap_or_default();
     ctx.rep.evaluations += 1;
     ctx.rep.nontrivial += 1;
-    let detail = format!("xargs -I{{}} vrec LOG {:?} over lines of 5, {len} and 4 bytes, RLIMIT_STACK {}\nexit {:?}; {} invocations recorded; stderr {:?}", templ, stack.0, o.code, recs.len(), err.chars().take(200).collect::<String>());
+    let detail = format!("xargs {} vrec LOG {:?} over lines of 5, {len} and 4 bytes, RLIMIT_STACK {}\nexit {:?}; {} invocations recorded; stderr {:?}", ropt.join(" "), templ, stack.0, o.code, recs.len(), err.chars().take(200).collect::<String>());
     if o.timed_out || o.signal.is_some() || o.code == Some(101) {
         return Some(("C06 xargs crashed / hung".into(), detail));
     }
@@ -386,7 +395,7 @@ fn replay(case: &Value, ctx: &mut Ctx) -> Option<String> {
     let g = |k: &str| case[k].as_u64().map(|x| x as usize);
     if case["replace"].as_bool().unwrap_or(false) {
         let templs: [&[&str]; 4] = [&["{}"], &["{}{}"], &["{}", "{}", "{}"], &["a{}b", "x", "{}{}{}{}"]];
-        return match replace_point(ctx, STACKS[g("stack")?], g("linelen")?, templs[g("templ")?]) {
+        return match replace_point(ctx, STACKS[g("stack")?], g("linelen")?, templs[g("templ")?], REPLACE_OPTS[g("ropt").unwrap_or(0)]) {
             Some((sig, detail)) => {
                 ctx.rep.violation(&sig, detail, case.clone());
                 Some(sig)
